@@ -170,3 +170,8 @@ Print PvpProofs.ending_is.
 Print Assumptions C14_pvp_step_spec.
 Print Assumptions C14_pvp_step_accepts_iff.
 Print Assumptions C14_pvp_run_inv.
+
+(* the human's turns of the `chess play` loop obey the same line-level statement *)
+From ChessV Require PlayProofs.
+Check @PlayProofs.play_step_accepts_iff.
+Print Assumptions PlayProofs.play_step_accepts_iff.
